@@ -75,6 +75,7 @@ def describe_universe(universe):
             "view_of": getattr(e.implied_union_target, "name", None),
             "pk_type": (e.primaryKey.getPythonType().__name__ if hasattr(e, "primaryKey") else None),
             "alternate": [k.name for k in getattr(e, "alternateKeys", [])],
+            "alternate_types": [[k.name, k.getPythonType().__name__] for k in getattr(e, "alternateKeys", [])],
         })
     return out
 
@@ -316,7 +317,7 @@ def op_putget(w: World, op):
         rows = []
         for r in w.reg.queryDimensionRecords(el):
             o = w.rec_obs(e, r)
-            skip = set(e.required.names) | set(e.implied.names) | {"id", "name"}
+            skip = set(e.required.names) | {"id", "name"}
             fields = []
             for f in e.RecordClass.fields.names:
                 if f in skip:
